@@ -63,7 +63,7 @@ def main():
             h = _env.tree_hash(dst)
             root = os.path.join(VERIF, ".cache", "numba")
             for d in os.listdir(root) if os.path.isdir(root) else []:
-                if d.startswith(h):
+                if d.startswith(h) and h != _env.tree_hash('/repo'):
                     shutil.rmtree(os.path.join(root, d), ignore_errors=True)
         finally:
             shutil.rmtree(dst, ignore_errors=True)
